@@ -187,19 +187,48 @@ def fault_script(rng, flv, teardown=False):
     return with_modes([G.FIXED, n, rng.randint(2, 4), rng.random() < 0.5, pkts, [0, 1 if teardown else 0, 0], sched, panic, flv, 1,
                        False, False], modes)
 
+# ---- a late joiner whose replay is longer than the limit --------------------------------------------------------
+def late_join_script(rng, flv, h265, maxq, drain):
+    """cache_gop on; consumer 0 reads everything; consumer 1 attaches in the middle of a GOP that is already longer
+    than the limit, drains its queue or not, then the rest of that GOP and two more GOPs are published.  It must be
+    handed the replay and then every packet up to the next key-frame start: a consumer does not start out dropping."""
+    gop_len = maxq + rng.randint(3, 6)
+    npk = 3 * gop_len
+    join_at = rng.randint(maxq + 2, gop_len - 1)              # packets published before the join: replay > limit
+    pkts = []
+    for i in range(npk):
+        if flv:
+            k = 2 if i % gop_len == 0 else 1
+        else:
+            k = 2 if i % gop_len == 0 else rng.choice([1, 1, 1, 0])
+        pkts.append([i + 1, k])
+    if not flv and rng.random() < 0.5:
+        pkts = [[npk + 1, 3], [npk + 2, 4]] + pkts
+        join_at += 2
+    sched = [[G.ATT, 0]] * 3
+    for i in range(len(pkts)):
+        if i == join_at:
+            sched += [[G.ATT, 1]] * 3
+        sched += [[G.PUB, 0]] * 3 + [[G.CONS, 0]] * 2
+        if i >= join_at and drain:
+            sched += [[G.CONS, 1]] * rng.choice([2, 4, 6])
+    # what was handed over is what is observed: in the end consumer 1 reads everything it was queued
+    sched += [[G.CONS, 0], [G.CONS, 1]] * (2 * len(pkts) + 8)
+    return [G.FIXED, 2, maxq, True, pkts, [0, 0], sched, [0, 0], flv, 1, h265 and not flv]
+
 def run(ck):
     if not ck.prepare():
         return ck.finish(rule="build failed")
     rng = ck.rng
     cases = []
-    for _ in range(25 if not ck.thorough else 600):
+    for _ in range(23 if not ck.thorough else 600):
         maxq = rng.randint(2, 8)
         npk = rng.randint(10, 60)
         g = rng.randint(1, 9)
         a = rng.randint(0, npk)
         cases.append(stall_case(rng, maxq, npk, g, a, rng.randint(a, npk + 5), gop=rng.random() < 0.5, h265=rng.random() < 0.5))
     cases += [G.rand_case(rng, G.FIXED, maxq=rng.randint(1, 4), max_pkts=30, max_len=160, panic_p=0.3)
-              for _ in range(36 if not ck.thorough else 800)]
+              for _ in range(30 if not ck.thorough else 800)]
     # the real limit of 1000: a few long scripts
     for _ in range(1 if not ck.thorough else 12):
         npk = rng.randint(1100, 1250) if not ck.thorough else rng.randint(1300, 1800)
@@ -211,6 +240,15 @@ def run(ck):
         for ch in (AUDIO, VRTCP, ARTCP) if ck.thorough else (AUDIO, rng.choice([VRTCP, ARTCP])):
             for _ in range(1 if not ck.thorough else 6):
                 scripts.append(lookalike_script(rng, h265, ch, rng.randint(2, 5), rng.randint(4, 8)))
+    # late joiners whose replay is longer than the limit (RTP H.264 / HEVC and FLV), draining or not
+    joins = []
+    for flv, h265 in ((False, False), (False, True), (True, False)):
+        for drain in (False, True) if ck.thorough else (rng.random() < 0.5,):
+            for _ in range(1 if not ck.thorough else 8):
+                joins.append(late_join_script(rng, flv, h265, rng.randint(1, 4), drain))
+    joins.append(late_join_script(rng, rng.random() < 0.3, rng.random() < 0.5, rng.randint(1, 4), True))
+    ck.stream("join-replay-longer-than-limit", joins, "C04_lts", "C04_lts", "C04_ok",
+              nontrivial=lambda c: True, sig=lambda c, e, o: "lts-join", timeout=900)
     ck.stream("not-video-looks-like-key", scripts, "C04_lts", "C04_lts", "C04_ok",
               nontrivial=lambda c: True, sig=lambda c, e, o: "lts-lookalike", timeout=900)
     # the conversion chain: RTP in, FLV consumers served by rtp demuxer -> FLV muxer -> WriteFlvTag
